@@ -284,6 +284,8 @@ def r11_7(run):
             run.ob('R11.7', sa, t.ast, 'every assigned list is wrapped for its own option', False, slot='wrap-every-list',
                    message='__setattr__ skips wrapping when the value is already a _ListWrapper: list-valued options then share one tracked list bound to the wrong option name')
     run.ob('R11.7', sa, sa.node, 'wrap tests examined', True)
+    from . import c10
+    c10.wrap_always(run, 'R11.7')
 
 
 def r11_8(run):
